@@ -603,7 +603,7 @@ static HALFWORD_MNEMONICS: [Option<Mnemonic>; HALFWORD_MNEMONIC_COUNT] = [
         [OpType::None, OpType::None, OpType::None, OpType::None]
     )),
     Some(mn!(
-        0x303f,
+        0x3035,
         Data::None,
         "STRCPY",
         [OpType::None, OpType::None, OpType::None, OpType::None]
